@@ -325,6 +325,25 @@ def correspond(ctx):
                 co.add("frac_volumes", f"fraclw {f2t(DENSITY_OF_ICE)} {f2t(DENSITY_OF_WATER)} {f2t(rho)} {f2t(lw)}", f2t(f), Tol(1e-12))
         except AssertionError:
             pass
+    # the whole function (rounding clamp and range assertions), densities up to and beyond that of ice: a crust a few kg/m3 below the
+    # density of ice still contains air; a hair above, it is ice; further above, the density is refused
+    def cfv(**kw):
+        try:
+            f, lw_ = SnowLayer.compute_frac_volumes(**kw)
+            return f"{f2t(f)} {f2t(lw_)}"
+        except AssertionError:
+            return "ERR:AssertionError"
+    fixed = [905.0, 908.0, 910.0, 912.5, 915.0, 916.0, 916.6, DENSITY_OF_ICE, 916.8, 917.0, 920.0, 925.0, 925.8, 926.0, 930.0, 1000.0]
+    for k in range(ctx.n(60, 600)):
+        rho = fixed[k] if k < len(fixed) else float(rng.uniform(850, 940)) if k % 2 else float(rng.uniform(50, 1000))
+        for vlw in (0.0, float(rng.choice([0.0, 0.01, 0.05, 0.1]))):
+            co.add("frac_volumes.clamp", f"cfvlw {f2t(DENSITY_OF_ICE)} {f2t(DENSITY_OF_WATER)} {f2t(rho)} {f2t(vlw)}",
+                   cfv(density=rho, volumetric_liquid_water=vlw), Tol(1e-12), desc={"density": rho, "volumetric_liquid_water": vlw})
+        lw = float(rng.choice([0.0, 0.0, 0.02, 0.1]))
+        co.add("frac_volumes.clamp", f"cflw {f2t(DENSITY_OF_ICE)} {f2t(DENSITY_OF_WATER)} {f2t(rho)} {f2t(lw)}",
+               cfv(density=rho, liquid_water=lw), Tol(1e-12), desc={"density": rho, "liquid_water": lw})
+        co.note("clamp: density " + ("below 0.99 ice" if rho < 0.99 * DENSITY_OF_ICE else "last 1 % below ice" if rho <= DENSITY_OF_ICE else
+                                     "up to 1 % above ice" if rho < 1.01 * DENSITY_OF_ICE else "beyond"))
     return co
 
 
@@ -476,9 +495,75 @@ def minimise(ops, pred):
     return ops
 
 
+def check_layer_updates(seed):
+    """a snow layer built from (density, volumetric liquid water, temperature, thickness) and then changed through its update(): after
+    every step the attributes are the ones given last and the volume fractions are those of the mass balance for them (a fractional
+    volume up to 1 % above one, a rounding artefact of the nominal ice density, counts as one; at most one is kept as it is)"""
+    from smrt.inputs.make_medium import make_snow_layer
+    from smrt.core.globalconstants import DENSITY_OF_ICE as RI, DENSITY_OF_WATER as RW
+    rng = np.random.default_rng(seed)
+    dens = lambda: float(rng.choice([round(float(rng.uniform(150, 600)), 1), round(float(rng.uniform(908.0, 916.5)), 1), 917.0]))
+    water = lambda: float(rng.choice([0.0, 0.0, round(float(rng.uniform(0.005, 0.1)), 3)]))
+    st = dict(density=dens(), volumetric_liquid_water=water() if rng.random() < 0.7 else None, temperature=round(float(rng.uniform(240, 273)), 2),
+              thickness=round(float(rng.uniform(0.05, 2)), 3))
+    if st["density"] > 900:
+        st["volumetric_liquid_water"] = 0.0 if st["volumetric_liquid_water"] is not None else None
+    kw = {} if st["volumetric_liquid_water"] is None else dict(volumetric_liquid_water=st["volumetric_liquid_water"])
+    lay = make_snow_layer(st["thickness"], "exponential", density=st["density"], temperature=st["temperature"], corr_length=2e-4, **kw)
+    log = [f"make_snow_layer({st})"]
+
+    def expected():
+        v = st["volumetric_liquid_water"] or 0.0
+        f = (st["density"] - (RW - RI) * v) / RI
+        return (1.0 if 1 < f < 1.01 else f), v / f
+
+    def verify():
+        f, lw = expected()
+        got = dict(density=lay.density, temperature=lay.temperature, thickness=lay.thickness, frac_volume=lay.frac_volume, liquid_water=lay.liquid_water,
+                   microstructure_frac_volume=lay.microstructure.frac_volume if hasattr(lay, "microstructure") and lay.microstructure is not None else lay.frac_volume)
+        want = dict(density=st["density"], temperature=st["temperature"], thickness=st["thickness"], frac_volume=f, liquid_water=lw, microstructure_frac_volume=f)
+        for k in want:
+            if not abs(float(got[k]) - float(want[k])) <= 1e-12 * max(1.0, abs(want[k])):
+                return k, got[k], want[k]
+        return None
+    r = verify()
+    for step in range(int(rng.integers(1, 5))):
+        if r is not None:
+            break
+        ch = {}
+        what = rng.choice(["density", "water", "temperature", "thickness", "density+water", "water+temperature"])
+        if "density" in what:
+            ch["density"] = dens()
+        if "water" in what:
+            ch["volumetric_liquid_water"] = water()
+        if "temperature" in what:
+            ch["temperature"] = round(float(rng.uniform(240, 273)), 2)
+        if "thickness" in what:
+            ch["thickness"] = round(float(rng.uniform(0.05, 2)), 3)
+        new = dict(st, **ch)
+        if new["density"] > 900 and (new["volumetric_liquid_water"] or 0.0) > 0:
+            ch["volumetric_liquid_water"] = 0.0
+        try:
+            lay.update(**ch)
+        except AssertionError:
+            return None                 # a refused combination: not a reachable state
+        st.update(ch)
+        log.append(f"update({ch})")
+        r = verify()
+    if r is None:
+        return None
+    return ("layer-update:" + r[0], " ; ".join(log) + f" -> {r[0]} = {r[1]!r}", f"{r[0]} = {r[2]!r}")
+
+
 def oracle(ctx, hints, effort):
     rng = ctx.np
     findings, evals = {}, 0
+    for _ in range(40 if effort == "routine" else 400):
+        evals += 1
+        sd = int(rng.integers(0, 2**31))
+        r = check_layer_updates(sd)
+        if r is not None and r[0] not in findings:
+            findings[r[0]] = Finding(r[0], r[1], {"kind": "layer-updates", "seed": sd}, r[1], r[2])
     hists = [h["desc"]["ops"] for h in hints if h.get("slice") == "snowpack.history" and h.get("desc")][:40]
     hists += gen_exhaustive(1, STARTS[:2]) + gen_random(rng, 60 if effort == "routine" else 600, 3, 10)
     for ops in hists:
@@ -531,6 +616,9 @@ def oracle(ctx, hints, effort):
 def replay(inp, rp=None):
     if inp["kind"] == "history":
         r = check_history(inp["ops"])
+        return Finding("?", r[1], inp, r[1], r[2]) if r else None
+    if inp["kind"] == "layer-updates":
+        r = check_layer_updates(inp["seed"])
         return Finding("?", r[1], inp, r[1], r[2]) if r else None
     if inp["kind"] == "z":
         exp = expected_z(inp["z"]); got = impl_z(inp["z"])
